@@ -6,7 +6,7 @@ from common import *
 
 MANIFEST_ENTRY = dict(
     cat="model_checking", ref="DESIGN.md 2.9, 3.6, 4 C20", engine="wallet-tla",
-    text="Scenarios (a reachable wallet state with pending transactions, one multi-section run R of update_wallet_state or scan, 1..2 further operations or node events) are drawn from the transitions of the bounded Wallet model; spec/Conc.tla is the thread structure at wallet-lock granularity and TLC enumerates EVERY schedule of it (for each other operation, the number of lock acquisitions R has completed when it runs) and checks the schedules never deadlock; the harness executes each schedule on the real code - R in its own real thread parked in the wallet_lock! hook before each acquisition, released one section at a time - and every serial order of the same operations, and TLC (spec/TraceConc.tla) judges that the projected final state of every interleaving equals that of some serial order and that no schedule hangs.",
+    text="Scenarios (a reachable wallet state with pending transactions, one multi-section run R of update_wallet_state, of the background updater's own loop (owner_updater::Updater::run, stopped after one pass) or of scan, 1..2 further operations or node events) are drawn from the transitions of the bounded Wallet model; spec/Conc.tla is the thread structure at wallet-lock granularity and TLC enumerates EVERY schedule of it (for each other operation, the number of lock acquisitions R has completed when it runs) and checks the schedules never deadlock; the harness executes each schedule on the real code - R in its own real thread parked in the wallet_lock! hook before each acquisition, released one section at a time - and every serial order of the same operations, and TLC (spec/TraceConc.tla) judges that the projected final state of every interleaving equals that of some serial order and that no schedule hangs.",
     technique="TLC enumeration of all lock-point schedules (spec/Conc.tla) + deterministic lock-point scheduler on the real code + TLC trace validation of serializability (spec/TraceConc.tla)",
     note=WALLET_NOTE + " Granularity is the wallet-lock acquisition: node calls made between two acquisitions are not separately interleaved; the section bodies are those of Wallet.tla's RefreshFull/Scan step programs.")
 
@@ -35,6 +35,11 @@ SCRIPTED = [
     {"prefix": [_I, _L, _R, _F, _P], "r": {"ev": "refresh", "w": "w2"}, "ops": [{"ev": "cancel", "w": "w2", "id": 0}, _M]},
     {"prefix": [_I, _L, _R, _F, _P, _M], "r": {"ev": "refresh", "w": "w1"}, "ops": [{"ev": "init_send", "w": "w1", "sl": "s2", "amt": 1000}]},
     {"prefix": [dict(_I, ttlb=1), _L, _R], "r": {"ev": "refresh", "w": "w1"}, "ops": [_M0, _F]},
+    # R is the background updater itself (owner_updater::Updater::run, one pass: stop_updater arrives while
+    # the first pass is under way); the serial reference of a pass is a refresh
+    {"prefix": [_I, _L, _R, _F, _P], "r": {"ev": "refresh", "w": "w2", "via": "updater"}, "ops": [_M]},
+    {"prefix": [_I], "r": {"ev": "refresh", "w": "w1", "via": "updater"}, "ops": [_L, {"ev": "cancel", "w": "w1", "id": 2}]},
+    {"prefix": [_I, _L, _R], "r": {"ev": "refresh", "w": "w1", "via": "updater"}, "ops": [_F, _P]},
 ]
 
 
@@ -137,7 +142,7 @@ def run(tier, replay_path, t0):
                     if rk == "scan":
                         r.update({"start": 1, "del": rnd.random() < 0.5})
                     scen.append({"prefix": pre, "r": r, "ops": ops})
-        keep = set(range(len(SCRIPTED))) if tier == "thorough" else {0, 1, 4, 6, 7, 9}
+        keep = set(range(len(SCRIPTED))) if tier == "thorough" else {0, 1, 4, 6, 7, 9, 10, 12}
         scen = [dict(x, scripted=True, modelled=(i + 1 if i < 8 else 0)) for i, x in enumerate(SCRIPTED) if i in keep] + scen
         setup = p["setup"]
     # pass 1: count the sections of R in each scenario (no schedules yet)
@@ -241,7 +246,7 @@ def run(tier, replay_path, t0):
         raise ToolError("no schedule was executed (vacuity guard)")
     kinds = {}
     for e in conc:
-        kk = "%s|%s" % (e["r"], ",".join(e["opkinds"]))
+        kk = "%s%s|%s" % (e["r"], ":updater" if e.get("via") == "updater" else "", ",".join(e["opkinds"]))
         kinds[kk] = kinds.get(kk, 0) + 1
     cov = {
         "states": sum(s["states"] for s in stats) + nsched_model_states + model_stats.get("states", 0),
